@@ -53,6 +53,10 @@ POOL = [
     # hashes collide: the memo's hash probe cannot separate them, only == can
     T(("U:vf.usercls_gen.VarL", ("str", "x"), C(-1)), ("U:vf.usercls_gen.VarL", ("str", "x"), C(-2)),
       ("U:vf.usercls_gen.VarL", ("str", "y"), C(0)), ("U:vf.usercls_gen.VarL", ("str", "y"), C(2**61 - 1))),
+    # 15: node types whose handlers are alias targets next to the node types of the aliases
+    T(Quot(X, Y), ("Remainder", X, Y), ("FloorDiv", X, Y), ("LeftShift", X, C(2)),
+      ("RightShift", X, C(2)), ("BitwiseOr", T(X, Y)), ("BitwiseXor", T(X, Y)),
+      ("BitwiseAnd", T(X, Y)), ("LogicalOr", T(X, Y)), ("LogicalAnd", T(X, Y))),
 ]
 SHARED = {6}        # built with DAG sharing (the two Product(x, y) are one object)
 POOL_Q = [0, 1, 2, 3, 4, 6, 7, 8, 11, 12, 13, 14]
@@ -60,9 +64,11 @@ POOL_Q = [0, 1, 2, 3, 4, 6, 7, 8, 11, 12, 13, 14]
 ARGS = [((), ()), ((1,), ()), ((1.0,), ()), ((True,), ()), ((1, "a"), ()),
         ((), (("k", 1),)), ((), (("k", 2),)), ((1,), (("k", 1),)),
         # the same two keyword arguments written in either order: one key
-        ((), (("k", 1), ("j", 2))), ((), (("j", 2), ("k", 1)))]
+        ((), (("k", 1), ("j", 2))), ((), (("j", 2), ("k", 1))),
+        # a positional (name, value) pair next to the keyword argument it spells
+        ((("k", 1),), ())]
 ARGS_Q = [((), ()), ((1,), ()), ((1.0,), ()), ((), (("k", 1),)), ((), (("k", 2),)),
-          ((), (("k", 1), ("j", 2))), ((), (("j", 2), ("k", 1)))]
+          ((), (("k", 1), ("j", 2))), ((), (("j", 2), ("k", 1))), ((("k", 1),), ())]
 
 
 def pool_obj(i):
@@ -281,11 +287,12 @@ class C05(Check):
             "and at top level, one CSE wrapper twice, two user node classes over different bases "
             "that name the same unimplemented handler, old-style nodes differing in a hash-colliding "
             "extra argument) and arguments from {(), (1,), (1.0,), "
-            "(True,), (1,'a'), k=1, k=2, (1, k=1), (k=1, j=2), (j=2, k=1)}; all histories up to the largest depth whose complete exploration "
+            "(True,), (1,'a'), k=1, k=2, (1, k=1), (k=1, j=2), (j=2, k=1), (('k', 1),)}; all histories up to the largest depth whose complete exploration "
             "fits 15k (quick) / 250k (thorough) transitions per mapper pair (depth 3-5); pairs: identity, argument-dependent renamer, leaf-counting combine, collector, "
             "walk, evaluation, substitution, dependency x 3 flag settings, and every class the "
-            "optimizer produces from 5 source classes (a renamer, a flattener, a None-returning walker, "
-            "two argument-keeping mappers) (32 + 32 + 32 + 4 + 4 option combinations), each "
+            "optimizer produces from 6 source classes (a renamer, a flattener, a None-returning walker, "
+            "a mapper overriding handlers that are alias targets, "
+            "two argument-keeping mappers) (32 + 32 + 32 + 32 + 4 + 4 option combinations), each "
             "in a fresh process state and after an earlier use of the optimizer with other "
             "options; wide: one call on a tree with 1100 (thorough 300 / 1100 / 2100) distinct operands "
             "that all occur three times, no key computed twice; constructor parity: every prefix of every positional flag vector gives "
@@ -312,7 +319,8 @@ class C05(Check):
                 yield ("pair", name)
 
         def optimized():
-            for kind in ("OptRenamer", "OptFlattener", "OptWalker", "OptStock", "OptArgRenamer"):
+            for kind in ("OptRenamer", "OptFlattener", "OptWalker", "OptAliasTargets", "OptStock",
+                         "OptArgRenamer"):
                 for o in opt_combos(kind):
                     for poison in POISONS:
                         yield ("opt", kind, tuple(sorted(o.items())), poison)
@@ -367,7 +375,7 @@ class C05(Check):
                 return r
             label = item[1] + "[" + ("+".join(k for k, v in sorted(opts.items()) if v)
                                      or "none") + "]" + item[3]
-            pool = [0, 1, 2, 3, 4, 6, 7, 11, 13]
+            pool = [0, 1, 2, 3, 4, 6, 7, 11, 13] if item[1] != "OptAliasTargets" else [0, 4, 6, 15]
         if item[0] == "opt" and item[1] == "OptArgRenamer":
             args = [((1,), ()), ((1.0,), ()), ((True,), ())] if tier == "thorough" \
                 else [((1,), ()), ((1.0,), ())]
